@@ -74,9 +74,9 @@ func crashNilMap(r *core.Report, cs *crashScope, floor int) {
 }
 
 type nilMapper struct {
-	p    *core.Prog
-	cs   *crashScope
-	memo map[string]string
+	p     *core.Prog
+	cs    *crashScope
+	memo  map[string]string
 	depth int
 }
 
